@@ -519,4 +519,44 @@ V("c10-verify-catches-all", "C10", "request.py",
 OK("c10-benign-must-rename", "C10", "entity.py",
    "_log_debug(\"Loaded request\")", "_log_debug(\"Loaded the request\")")
 
+# ------------------------------------------------------------------ C11
+V("c11-stdlib-fromstring-soap", "C11", "soap.py",
+  "        envelope = defusedxml.ElementTree.fromstring(text)\n    except Exception as exc:\n        raise XmlParseError(\"%s\" % exc)\n\n    assert envelope.tag == '{%s}Envelope' % soapenv.NAMESPACE\n    assert len(envelope) >= 1\n    content",
+  "        envelope = ElementTree.fromstring(text)\n    except Exception as exc:\n        raise XmlParseError(\"%s\" % exc)\n\n    assert envelope.tag == '{%s}Envelope' % soapenv.NAMESPACE\n    assert len(envelope) >= 1\n    content",
+  rule="R1")
+V("c11-minidom-in-mdstore", "C11", "mdstore.py",
+  "    def parse(self, xmlstr):\n        self.entities_descr",
+  "    def peek(self, xmlstr):\n        import xml.dom.minidom\n        return xml.dom.minidom.parseString(xmlstr).documentElement.tagName\n\n    def parse(self, xmlstr):\n        self.entities_descr",
+  rule="R1")
+V("c11-from-import-alias", "C11", "pack.py",
+  "import defusedxml.ElementTree\n",
+  "import defusedxml.ElementTree\nfrom xml.etree.ElementTree import fromstring as _fs\n\n\ndef quick_tag(text):\n    return _fs(text).tag\n",
+  rule="R1")
+V("c11-xmlparser-custom", "C11", "__init__.py",
+  "    tree = defusedxml.ElementTree.fromstring(xml_string)\n    return create_class_from_element_tree(target_class, tree)",
+  "    tree = defusedxml.ElementTree.fromstring(xml_string, parser=ElementTree.XMLParser())\n    return create_class_from_element_tree(target_class, tree)",
+  rule="R1")
+V("c11-forbid-entities-off", "C11", "__init__.py",
+  "    element_tree = defusedxml.ElementTree.fromstring(xml_string)",
+  "    element_tree = defusedxml.ElementTree.fromstring(xml_string, forbid_entities=False)",
+  rule="R1")
+V("c11-lxml-in-response", "C11", "response.py",
+  "    def session_id(self):",
+  "    def pretty(self):\n        import lxml.etree\n        return lxml.etree.tostring(lxml.etree.fromstring(self.xmlstr), pretty_print=True)\n\n    def session_id(self):",
+  rule="R1")
+V("c11-from-string-bypasses-funnel", "C11", "samlp.py",
+  "def status_message_from_string(xml_string):\n    return saml2_tophat.create_class_from_xml_string(StatusMessage, xml_string)",
+  "def status_message_from_string(xml_string):\n    from xml.etree import ElementTree as _ET\n    return saml2_tophat.create_class_from_element_tree(StatusMessage, _ET.fromstring(xml_string))",
+  rule="R1")
+V("c11-parse-error-swallowed", "C11", "soap.py",
+  "    try:\n        envelope = defusedxml.ElementTree.fromstring(text)\n    except Exception as exc:\n        raise XmlParseError(\"%s\" % exc)\n\n    assert envelope.tag == '{%s}Envelope' % soapenv.NAMESPACE\n    assert len(envelope) >= 1\n    env =",
+  "    try:\n        envelope = defusedxml.ElementTree.fromstring(text)\n    except Exception as exc:\n        envelope = ElementTree.Element('{%s}Envelope' % soapenv.NAMESPACE)\n\n    assert envelope.tag == '{%s}Envelope' % soapenv.NAMESPACE\n    env =",
+  rule="R5")
+OK("c11-benign-new-defused-site", "C11", "mdstore.py",
+   "    def parse(self, xmlstr):\n        self.entities_descr",
+   "    def peek(self, xmlstr):\n        import defusedxml.ElementTree\n        return defusedxml.ElementTree.fromstring(xmlstr).tag\n\n    def parse(self, xmlstr):\n        self.entities_descr")
+OK("c11-benign-more-serialising", "C11", "soap.py",
+   "def parse_soap_enveloped_saml_thingy(text, expected_tags):",
+   "def dump_element(elem):\n    return ElementTree.tostring(elem, encoding=\"UTF-8\")\n\n\ndef parse_soap_enveloped_saml_thingy(text, expected_tags):")
+
 VARIANTS[:] = [v for v in VARIANTS if v]
